@@ -409,3 +409,22 @@ BREAKING += [
                                                 (A, _PACK_STMTS, _PACK_STMTS.replace("struct.pack(fmt, code)", "packer.pack(code)"))]),
     ('c01-pack-kwargs-dict-swapped', ['C01'], [(A, _ENC_ARMS_OLD, "            args = item.args()\n            extra = {}\n            " + _ISA_OLD + "\n                extra = {'aq': args[-1], 'rl': args[-2]}\n                args = args[:-2]\n            code = encode_func(*args, **extra)")]),
 ]
+
+_IMM_HELPER_ANCHOR = "# helper for parsing immediates since they occur in multiple places\n"
+_HILO_OLD = ("    elif head == '%hi':\n        if imm[1] == '(':\n            _, _, *imm, _ = imm\n        else:\n            _, *imm = imm\n        return Hi(parse_immediate(imm, line))\n"
+             "    elif head == '%lo':\n        if imm[1] == '(':\n            _, _, *imm, _ = imm\n        else:\n            _, *imm = imm\n        return Lo(parse_immediate(imm, line))\n")
+_HILO_DICT = "    elif head in RELOCATIONS:\n        inner = imm[2:-1] if imm[1] == '(' else imm[1:]\n        return RELOCATIONS[head](parse_immediate(inner, line))\n"
+PRESERVING += [
+    ('p-imm-wrapper-dict', None, [(A, _IMM_HELPER_ANCHOR, "RELOCATIONS = {'%hi': Hi, '%lo': Lo}\n\n\n" + _IMM_HELPER_ANCHOR), (A, _HILO_OLD, _HILO_DICT)]),
+    ('p-imm-strip-helper', None, [(A, _IMM_HELPER_ANCHOR, "def strip_modifier(imm):\n    if imm[1] == '(':\n        return imm[2:-1]\n    return imm[1:]\n\n\n" + _IMM_HELPER_ANCHOR),
+                                  (A, _HILO_OLD, "    elif head == '%hi':\n        return Hi(parse_immediate(strip_modifier(imm), line))\n    elif head == '%lo':\n        return Lo(parse_immediate(strip_modifier(imm), line))\n")]),
+    ('p-parse-dict-dispatch', None, [(A, _PARSE_ITEM_DEF, "def parse_u_type(line, name, tokens):\n    return UTypeInstruction(line, name, tokens[1], parse_immediate(tokens[2:], line))\n\n\nUPPER_PARSERS = {'lui': parse_u_type, 'auipc': parse_u_type}\n\n\n" + _PARSE_ITEM_DEF),
+                                     (A, "    # u-type instructions\n    elif head in U_TYPE_INSTRUCTIONS:\n" + _U_ARM_OLD + "\n", ""),
+                                     (A, _LABEL_ARM, "    parser = UPPER_PARSERS.get(head)\n    if parser is not None:\n        return parser(line, head, tokens)\n\n" + _LABEL_ARM)]),
+]
+BREAKING += [
+    ('c07-imm-wrapper-dict-swapped', ['C07'], [(A, _IMM_HELPER_ANCHOR, "RELOCATIONS = {'%hi': Lo, '%lo': Hi}\n\n\n" + _IMM_HELPER_ANCHOR), (A, _HILO_OLD, _HILO_DICT)]),
+    ('c01-parse-dict-dispatch-missing', ['C01'], [(A, _PARSE_ITEM_DEF, "def parse_u_type(line, name, tokens):\n    return UTypeInstruction(line, name, tokens[1], parse_immediate(tokens[2:], line))\n\n\nUPPER_PARSERS = {'lui': parse_u_type}\n\n\n" + _PARSE_ITEM_DEF),
+                                                  (A, "    # u-type instructions\n    elif head in U_TYPE_INSTRUCTIONS:\n" + _U_ARM_OLD + "\n", ""),
+                                                  (A, _LABEL_ARM, "    parser = UPPER_PARSERS.get(head)\n    if parser is not None:\n        return parser(line, head, tokens)\n\n" + _LABEL_ARM)]),
+]
